@@ -716,7 +716,7 @@ func main() {
 		nf = 6
 	}
 	for r := 0; r < nf; r++ {
-		for verb := 0; verb < 3; verb++ {
+		for verb := 0; verb < 4; verb++ {
 			for _, applied := range []bool{true, false} {
 				for _, big := range []bool{false, true} {
 					faultRun(w, rnd.Fork(), args.Scratch, verb, applied, big, 0)
@@ -739,6 +739,16 @@ func main() {
 			for _, split := range []bool{false, true} {
 				partitionedRun(w, rnd.Fork(), args.Scratch, cb, split)
 			}
+		}
+	}
+	// a partition border on a version record of a key that is then deleted and compacted (memkv behind a wrapper
+	// that reports two partitions; in the other tiers also the TiKV mock with a real region split there)
+	for i := 0; i < 3; i++ {
+		splitVersionRun(w, rnd.Fork(), args.Scratch, lib.EngMem)
+	}
+	if args.Tier != "quick" {
+		for i := 0; i < 3; i++ {
+			splitVersionRun(w, rnd.Fork(), args.Scratch, lib.EngTiKV)
 		}
 	}
 	for i := 0; i < n; i++ {
